@@ -167,6 +167,9 @@ pub fn exec(_toks: &[&str], line: &str) -> Option<String> {
                 set_file(&s.path, &it.file);
                 clear_mono_script();
                 vclock::set(vclock::MONOTONIC_COARSE, it.as_sec, it.as_ns);
+                // the poller has no business with the system clock: CLOCK_REALTIME is stepped by an hour, back and forth, from one
+                // iteration to the next (chronyd stepping the clock, a VM resumed), always later than the usual reference times
+                vclock::set_ns(vclock::REALTIME, 1_700_000_002_000_000_000i128 + if s.started % 2 == 0 { 3_600_000_000_000 } else { 0 });
                 vclock::clear_log();
                 false
             }
